@@ -297,6 +297,34 @@ def lambda_targets():
     return [Target('swr_gen', [gen], SH), Target('swr_wgen', [wgen], SH)]
 
 
+# ------------------------------------------------------------------------------------------------- CBMC: gboost sampler
+GH = 'specs/C12/gsampler.h'
+G_TYPES = [(r'tensor_t<nano::tensor_vector_storage_t, long, 1>|^nano::indices_t$', 'struct nv_sel'),
+           (r'tensor_t<nano::tensor_carray_storage_t, long, 1>|^nano::sample_indices_t$', 'struct nv_ilist'),
+           (r'tensor_t<nano::tensor_(carray|vector)_storage_t, double, 1>|^nano::(sample_weights_t|tensor1d_t)$', 'struct nv_wvec'),
+           (r'^nano::tensor2d_t$|tensor_t<nano::tensor_vector_storage_t, double, 2>', 'struct nv_t2'),
+           (r'^nano::tensor4d_t$|tensor_t<nano::tensor_vector_storage_t, double, 4>', 'struct nv_t4'),
+           (r'^Eigen::Map<\s*(const )?Eigen::Matrix<double, -1, 1, 0.*>, 0.*>$', 'struct nv_gvec'),
+           (r'^nano::rng_t$|linear_congruential_engine', 'struct nv_rng'), (r'^nano::gboost_subsample$', 'uint8_t')]
+G_CALLS = [(r'^operator\(\)\|.*\|nano::tensor_t<nano::tensor_vector_storage_t, long, 1>', 'nv_sample_at({&0}, {1})'),
+           (r'^operator\(\)\|.*\|nano::tensor_t<nano::tensor_vector_storage_t, double, 1>', '(*nv_wvec_ref({&0}, {1}))'),
+           (r'^operator\(\)\|.*\|nano::tensor_t<nano::tensor_vector_storage_t, double, 2>', 'nv_loss_at({&0}, {1}, {2})'),
+           (r'^ctor\|nano::tensor_t<nano::tensor_carray_storage_t, long, 1>\|', '{0}'),
+           (r'^ctor\|nano::tensor_t<nano::tensor_carray_storage_t, double, 1>\|', '{0}'),
+           (r'^ctor\|nano::tensor_t<nano::tensor_vector_storage_t, long, 1>\|void \(const ', 'nv_sel_all({0})'),
+           (r'^sample_without_replacement\|nano::indices_t \(nano::sample_indices_t, (const )?nano::tensor_size_t, nano::rng_t &\)', 'sample_without_replacement'),
+           (r'^sample_with_replacement\|nano::indices_t \(nano::sample_indices_t, (const )?nano::tensor_size_t, nano::rng_t &\)', 'sample_with_replacement'),
+           (r'^sample_with_replacement\|nano::indices_t \(nano::sample_indices_t, nano::sample_weights_t, (const )?nano::tensor_size_t, nano::rng_t &\)', 'sample_with_replacement_weighted')]
+G_MEMBERS = [(r'^size\|', '{*self}.n'), (r'^vector\|nano::tensor_t<nano::tensor_vector_storage_t, double, 4>', 'nv_grad_vector({self}, {0})'),
+             (r'^lpNorm\|', 'nv_lpnorm({*self})')]
+
+
+def gboost_target():
+    f = Fn('gboost_sample', 'src/gboost/sampler.cpp', 'sample', flt='sampler_t::sample', self_struct='struct nv_gsampler',
+           types=G_TYPES, calls=G_CALLS, members=G_MEMBERS)
+    return Target('gboost_sample', [f], GH, replace=['sample_without_replacement', 'sample_with_replacement', 'sample_with_replacement_weighted'])
+
+
 # ------------------------------------------------------------------------------------------------- lemmas
 def lemmas():
     """facts about the spec functions (no code involved)"""
@@ -328,7 +356,7 @@ def build(tier):
         fns.append(r[1])
     vcs += lemmas()
     return {
-        'targets': lambda_targets(), 'vcs': vcs, 'functions': fns,
+        'targets': lambda_targets() + [gboost_target()], 'vcs': vcs, 'functions': fns,
         'decided': [
             'k-fold and random splitter, for every n in [0, 2^56], folds in [2,100], seed, percentage in [10,90], every fold: |train|+|valid| == n; every input element is copied exactly once into exactly one of train/valid and every slot of both is filled exactly once (=> disjoint, union == input for distinct inputs); both parts are sorted by std::sort over their whole range; one pair per fold',
             'k-fold: fold f validates exactly positions [f*chunk, f+1<folds ? (f+1)*chunk : n) of the shuffled input, these ranges tile [0,n) (each element validated by exactly one fold), sizes lie in [chunk, chunk+folds) (differ by less than folds)',
